@@ -6,7 +6,10 @@
 //! running actor. After every op it records the request's own result and a snapshot
 //! `h=[handled ids] st=<status> r=<exit reason seen by the supervisor|->`.
 //!
-//! ops: `case <linked 0|1>` · `cast` → `ok|err` · `drain` → `ok|err` · `stop` · `kill`
+//! Thread-local flavour (`case <l> tl`): the spawner's thread is held inside a blocker actor's
+//! pre_start while the requests are issued, so the target's start request is still queued.
+//!
+//! ops: `case <linked 0|1> [tl]` · `cast` → `ok|err` · `drain` → `ok|err` · `stop` · `kill`
 //!      · `poll ok|err` → `start=ok|err:<kind>`
 //!
 //! usage: early --seed S --cases N --out DIR [--replay-ops f1,f2] [--only-replay 1]
@@ -15,6 +18,7 @@ use std::sync::atomic::{AtomicU8, Ordering};
 use std::sync::{Arc, Mutex};
 
 use hutil::{Args, Log, Rng, Stats};
+use ractor::thread_local::{ThreadLocalActor, ThreadLocalActorSpawner};
 use ractor::{Actor, ActorProcessingErr, ActorRef, SpawnErr, SupervisionEvent};
 use tokio::task::JoinHandle;
 
@@ -42,6 +46,44 @@ impl Actor for Target {
     }
     async fn handle(&self, _: ActorRef<u64>, m: u64, _: &mut ()) -> Result<(), ActorProcessingErr> {
         self.shared.lock().unwrap().handled.push(m);
+        Ok(())
+    }
+}
+
+
+#[derive(Default)]
+struct TargetTl;
+struct TlArgs {
+    shared: Arc<Mutex<Shared>>,
+    outcome: Arc<AtomicU8>,
+}
+impl ThreadLocalActor for TargetTl {
+    type Msg = u64;
+    type State = Arc<Mutex<Shared>>;
+    type Arguments = TlArgs;
+    async fn pre_start(&self, _: ActorRef<u64>, a: TlArgs) -> Result<Self::State, ActorProcessingErr> {
+        if a.outcome.load(Ordering::SeqCst) == 0 {
+            Ok(a.shared)
+        } else {
+            Err("pre_start failed".into())
+        }
+    }
+    async fn handle(&self, _: ActorRef<u64>, m: u64, st: &mut Self::State) -> Result<(), ActorProcessingErr> {
+        st.lock().unwrap().handled.push(m);
+        Ok(())
+    }
+}
+
+/// its pre_start holds the spawner's thread until the harness sends on the channel
+#[derive(Default)]
+struct Blocker;
+impl ThreadLocalActor for Blocker {
+    type Msg = ();
+    type State = ();
+    type Arguments = (std::sync::mpsc::Receiver<()>, Arc<AtomicU8>);
+    async fn pre_start(&self, _: ActorRef<()>, a: Self::Arguments) -> Result<(), ActorProcessingErr> {
+        a.1.store(1, Ordering::SeqCst);
+        let _ = a.0.recv();
         Ok(())
     }
 }
@@ -80,10 +122,14 @@ struct World {
     start: Option<JoinHandle<Result<JoinHandle<()>, SpawnErr>>>,
     sup: Option<ActorRef<()>>,
     next: u64,
+    /// thread-local flavour: the spawner and the channel that releases its thread
+    spawner: Option<ThreadLocalActorSpawner>,
+    release: Option<std::sync::mpsc::Sender<()>>,
+    blocker: Option<JoinHandle<()>>,
 }
 
 impl World {
-    async fn new(linked: bool) -> Self {
+    async fn new(linked: bool, tl: bool) -> Self {
         let shared: Arc<Mutex<Shared>> = Default::default();
         let outcome = Arc::new(AtomicU8::new(0));
         let sup = if linked {
@@ -93,13 +139,36 @@ impl World {
         } else {
             None
         };
+        if tl {
+            let spawner = ThreadLocalActorSpawner::new();
+            let (tx, rx) = std::sync::mpsc::channel();
+            let parked = Arc::new(AtomicU8::new(0));
+            let (sp2, pk2) = (spawner.clone(), parked.clone());
+            let blocker = tokio::spawn(async move {
+                if let Ok((b, _)) = Blocker::spawn(None, (rx, pk2), sp2).await {
+                    b.stop(None);
+                }
+            });
+            while parked.load(Ordering::SeqCst) == 0 {
+                tokio::task::yield_now().await;
+                std::thread::yield_now();
+            }
+            // the spawner's thread stands still inside the blocker's pre_start: the target's
+            // start request stays queued until `poll`
+            let args = TlArgs { shared: shared.clone(), outcome: outcome.clone() };
+            let (target, start) = match &sup {
+                Some(s) => TargetTl::spawn_linked_instant(None, args, s.get_cell(), spawner.clone()).expect("instant"),
+                None => TargetTl::spawn_instant(None, args, spawner.clone()).expect("instant"),
+            };
+            return World { shared, outcome, target, start: Some(start), sup, next: 0, spawner: Some(spawner), release: Some(tx), blocker: Some(blocker) };
+        }
         let t = Target { shared: shared.clone(), outcome: outcome.clone() };
         // no yield between this call and the ops that follow: the start task has not been polled
         let (target, start) = match &sup {
             Some(s) => ractor::ActorRuntime::<Target>::spawn_linked_instant(None, t, (), s.get_cell()).expect("instant"),
             None => ractor::ActorRuntime::<Target>::spawn_instant(None, t, ()).expect("instant"),
         };
-        World { shared, outcome, target, start: Some(start), sup, next: 0 }
+        World { shared, outcome, target, start: Some(start), sup, next: 0, spawner: None, release: None, blocker: None }
     }
 
     fn snap(&self) -> String {
@@ -111,6 +180,21 @@ impl World {
             self.target.get_status(),
             if self.sup.is_some() { sh.reason.clone().unwrap_or_else(|| "-".into()) } else { "-".into() }
         )
+    }
+
+    async fn settle(&self) {
+        match &self.spawner {
+            None => quiesce().await,
+            Some(sp) => {
+                for _ in 0..5 {
+                    quiesce().await;
+                    if self.release.is_none() {
+                        sp.verif_barrier(40).await;
+                    }
+                }
+                quiesce().await;
+            }
+        }
     }
 
     /// ops issued before `poll` never yield; afterwards the world is run to quiescence
@@ -134,6 +218,9 @@ impl World {
             }
             ["poll", o] => {
                 self.outcome.store(if *o == "ok" { 0 } else { 1 }, Ordering::SeqCst);
+                if let Some(tx) = self.release.take() {
+                    let _ = tx.send(());
+                }
                 match self.start.take() {
                     None => "start=already".into(),
                     Some(jh) => match jh.await {
@@ -148,26 +235,37 @@ impl World {
             _ => "bad-op".into(),
         };
         if started || self.start.is_none() {
-            quiesce().await;
+            self.settle().await;
         }
         format!("{r} {}", self.snap())
     }
 
-    async fn finish(self) {
+    async fn finish(mut self) {
+        let rel = self.release.take();
+        if let Some(tx) = &rel {
+            let _ = tx.send(());
+        }
         self.target.kill();
-        if let Some(s) = self.sup {
+        if let Some(s) = &self.sup {
             s.kill();
         }
-        if let Some(h) = self.start {
+        if let Some(tx) = &self.release {
+            let _ = tx.send(());
+        }
+        if let Some(h) = &self.start {
             h.abort();
         }
-        quiesce().await;
+        if let Some(b) = &self.blocker {
+            b.abort();
+        }
+        self.settle().await;
     }
 }
 
-async fn run_case(log: &mut Log, st: &mut Stats, ops: &[String], linked: bool) {
-    let mut w = World::new(linked).await;
-    log.rec(format!("case {}", linked as u8), "ok");
+async fn run_case(log: &mut Log, st: &mut Stats, ops: &[String], linked: bool, tl: bool) {
+    let mut w = World::new(linked, tl).await;
+    st.bump(if tl { "case_tl" } else { "case_send" });
+    log.rec(format!("case {}{}", linked as u8, if tl { " tl" } else { "" }), "ok");
     for op in ops {
         let r = w.exec(op).await;
         st.bump(op.split_whitespace().next().unwrap_or("?"));
@@ -217,23 +315,24 @@ fn gen_ops(rng: &mut Rng, st: &mut Stats) -> Vec<String> {
 
 async fn replay_ops(log: &mut Log, st: &mut Stats, path: &str) {
     let text = std::fs::read_to_string(path).unwrap_or_default();
-    let mut cur: Option<(bool, Vec<String>)> = None;
+    let mut cur: Option<(bool, bool, Vec<String>)> = None;
     for line in text.lines() {
         let line = line.trim();
         if line.is_empty() {
             continue;
         }
         if let Some(rest) = line.strip_prefix("case") {
-            if let Some((l, ops)) = cur.take() {
-                run_case(log, st, &ops, l).await;
+            if let Some((l, t, ops)) = cur.take() {
+                run_case(log, st, &ops, l, t).await;
             }
-            cur = Some((rest.trim() == "1", vec![]));
-        } else if let Some((_, ops)) = cur.as_mut() {
+            let f: Vec<&str> = rest.split_whitespace().collect();
+            cur = Some((f.first() == Some(&"1"), f.get(1) == Some(&"tl"), vec![]));
+        } else if let Some((_, _, ops)) = cur.as_mut() {
             ops.push(line.to_string());
         }
     }
-    if let Some((l, ops)) = cur.take() {
-        run_case(log, st, &ops, l).await;
+    if let Some((l, t, ops)) = cur.take() {
+        run_case(log, st, &ops, l, t).await;
     }
 }
 
@@ -263,12 +362,14 @@ async fn main() {
         ];
         for (i, f) in fixed.iter().enumerate() {
             let ops: Vec<String> = f.iter().map(|s| s.to_string()).collect();
-            run_case(&mut log, &mut st, &ops, i % 2 == 0).await;
+            run_case(&mut log, &mut st, &ops, i % 2 == 0, false).await;
+            run_case(&mut log, &mut st, &ops, i % 2 == 1, true).await;
         }
         for _ in 0..cases {
             let ops = gen_ops(&mut rng, &mut st);
             let linked = rng.chance(1, 2);
-            run_case(&mut log, &mut st, &ops, linked).await;
+            let tl = rng.chance(1, 3);
+            run_case(&mut log, &mut st, &ops, linked, tl).await;
         }
     }
     st.add("lines", log.lines);
